@@ -18,8 +18,9 @@ date = datetime.date
 # G1 value pools and tables
 
 POOL = {
-    T_INT: [0, 1, -1, 2, 3, -3, 7, 10, 100],
-    T_DEC: [D('0'), D('0.0'), D('-1.5'), D('1.50'), D('2'), D('1E+2'), D('0.001'), D('1E-8'), D('123456.789'), D('3')],
+    # (-1 and -2 have the same Python hash, as have 0 and 2**61 - 1: values that differ but collide)
+    T_INT: [0, 1, -1, -2, 2, 3, -3, 7, 10, 100, 2 ** 61 - 1],
+    T_DEC: [D('0'), D('0.0'), D('-1'), D('-2'), D('-1.5'), D('1.50'), D('2'), D('1E+2'), D('0.001'), D('1E-8'), D('123456.789'), D('3')],
     T_STR: ['', 'a', 'b', 'A', ' ', '%', 'x1', 'ab', 'ba', 'a b', 'Ab%'],
     T_DATE: [date(2020, 1, 1), date(2019, 12, 31), date(2020, 2, 29), date(2020, 3, 31), date(2000, 1, 1),
              date(1999, 12, 31), date(2020, 6, 30), date(2021, 10, 1), date(1900, 1, 1), date(2100, 12, 31)],
@@ -83,7 +84,7 @@ def gen_table(rng, name='t', max_rows=8, schema=SCHEMA, ties=False):
             elif rng.random() < nullp[n]:
                 row.append(None)
             elif ties:
-                row.append(rng.choice(POOL[t][:3] if t != T_DEC else [D('1.0'), D('1.00'), D('-1.5')]))
+                row.append(rng.choice(POOL[t][:4] if t != T_DEC else [D('1.0'), D('1.00'), D('-1'), D('-2')]))
             else:
                 row.append(rand_value(rng, t))
         rows.append(tuple(row))
